@@ -148,6 +148,13 @@ func driveProject(t *Tracer, r Rng, n int) {
 			evProject(t, r, c, true, pts)
 		default:
 			c := int(r.Pick(0, -1, 1, 999999, 3856, 4327, 12345))
+			if r.Chance(0.6) { // codes that only LOOK like a supported one: same low 16 / 32 bits, negated, shifted by one digit
+				k := codes[r.Intn(len(codes))]
+				if r.Chance(0.5) {
+					k = 3857
+				}
+				c = []int{k + 65536, k - 65536, k + 2*65536, k + 1<<32, -k, k * 10, k + 100000, k ^ 1<<20}[r.Intn(8)]
+			}
 			if knownSet[c] {
 				continue
 			}
